@@ -221,17 +221,20 @@ Definition eff (o : opk) (lk : lay) (fl : flags) : list effect :=
       (if nested ki then [Share (Res, ValC ia) (Recv, ValC ia)] else []) ++
       (if arg_new && nested kia then [Share (Res, ValC ia) (Arg, ValC ia)] else [])
   | OAddMetadata =>
-      (* metadata[idx].update(entry) on the existing dicts (or a new tuple when there was none),
-         then _cast_metadata re-creates the dicts of BOTH axes *)
-      (if present (mdk_of a mo ms) then [Write (Recv, DictC a)] else []) ++
-      [Assign Recv DictO; Assign Recv DictS]
+      (* metadata[idx].update(entry) on the existing dicts (or a new tuple when there was none), then
+         _cast_metadata re-creates the dict objects of BOTH axes (same values); returns nothing: the
+         "result" is the receiver afterwards *)
+      let k := mdk_of a mo ms in
+      (if present k then [Write (Recv, DictC a)] else []) ++ [Assign Recv DictO; Assign Recv DictS] ++
+      share_all Res Recv [M; IdO; IdS] ++
+      ctor_md Res Recv a (if present k then k else MdFlat) ++
+      ctor_md Res Recv (other a) (mdk_of (other a) mo ms)
   | ODelMetadata =>
-      (* del md[k] inside the existing dicts of the axis / of both axes *)
-      match f_axis fl with
-      | XWhole => (if present mo then [Write (Recv, DictO)] else []) ++ (if present ms then [Write (Recv, DictS)] else []) ++
-                  [Assign Recv DictO; Assign Recv DictS]
-      | _ => (if present (mdk_of a mo ms) then [Write (Recv, DictC a)] else []) ++ [Assign Recv (DictC a)]
-      end
+      (* del md[k] inside the existing dicts of the axis / of both axes (keys given, not all of them) *)
+      (match f_axis fl with
+       | XWhole => (if present mo then [Write (Recv, DictO)] else []) ++ (if present ms then [Write (Recv, DictS)] else [])
+       | _ => if present (mdk_of a mo ms) then [Write (Recv, DictC a)] else []
+       end) ++ share_all Res Recv (all_comps_of mo ms)
   end.
 
 (* ---- meaning of a signature ---- *)
